@@ -18,8 +18,39 @@ RECURSIVE HasFlag(_)
 HasFlag(v) == \/ v.t = "flag"
               \/ v.t = "list" /\ \E j \in 1..Len(v.v) : HasFlag(v.v[j])
               \/ v.t = "dict" /\ \E j \in 1..Len(v.v[2]) : HasFlag(v.v[2][j])
+\* Falsy-but-set values for every field of the groups of the nested settings (crossSectionControl, tightCouplingSettings):
+\* "", [], 0, 0.0, False are values like any other -- an empty mergeIntoClad is not an unset one.  Derived from the group
+\* schema in the catalog: per field and falsy value of the field's type one group (the field added to / replacing it in a
+\* minimal valid group), plus one group with every field falsy at once.
+FalsyOf(sc) ==
+    CASE sc.k = "type" /\ sc.ty = "str" -> <<VStr("")>>
+      [] sc.k = "type" /\ sc.ty = "bool" -> <<VBool(FALSE)>>
+      [] sc.k = "list" -> <<VLst(<<>>)>>
+      [] sc.k = "coerce" /\ sc.ty \in {"int", "float"} -> <<VInt(0), VFlt(0, 1), VBool(FALSE)>>
+      [] sc.k = "all" -> <<VStr("")>>
+      [] OTHER -> <<>>
+FalsyGroups(s) ==
+    IF ~s.hasCustom THEN <<>>
+    ELSE IF s.custom.k # "fn" THEN <<>>
+    ELSE IF s.custom.name \notin {"xsSettingsValidator", "tightCouplingSettingsValidator"} THEN <<>>
+    ELSE LET fs == s.custom.inner.vals[1]
+             xs == s.custom.name = "xsSettingsValidator"
+             baseK == IF xs THEN <<VStr("geometry")>> ELSE <<VStr("parameter"), VStr("convergence")>>
+             baseV == IF xs THEN <<VStr("0D")>> ELSE <<VStr("a"), VFlt(1, 2)>>
+             id == IF xs THEN VStr("AA") ELSE VStr("abc")
+             With(k, v) == LET idx == {q \in 1..Len(baseK) : Same(baseK[q], k)} IN
+                           IF idx = {} THEN VDct(<<id>>, <<VDct(Append(baseK, k), Append(baseV, v))>>)
+                           ELSE VDct(<<id>>, <<VDct(baseK, [q \in 1..Len(baseK) |-> IF q \in idx THEN v ELSE baseV[q]])>>)
+             F[j \in 0..Len(fs.keys)] ==
+                 IF j = 0 THEN <<>>
+                 ELSE LET fz == FalsyOf(fs.vals[j]) IN F[j - 1] \o [m \in 1..Len(fz) |-> With(fs.keys[j].ks.v, fz[m])]
+             has == SelectSeq([j \in 1..Len(fs.keys) |-> j],
+                              LAMBDA j : Len(FalsyOf(fs.vals[j])) > 0 /\ ~\E q \in 1..Len(baseK) : Same(baseK[q], fs.keys[j].ks.v))
+             allAtOnce == VDct(<<id>>, <<VDct(baseK \o [m \in 1..Len(has) |-> fs.keys[has[m]].ks.v],
+                                             baseV \o [m \in 1..Len(has) |-> FalsyOf(fs.vals[has[m]])[1]])>>)
+         IN F[Len(fs.keys)] \o <<allAtOnce>>
 \* Flags objects are not YAML data: only a flag-list setting is offered them
-Pool(s) == LET base == Universe \o s.extra \o <<Dump(s, s.default)>> IN
+Pool(s) == LET base == Universe \o FalsyGroups(s) \o s.extra \o <<Dump(s, s.default)>> IN
            IF s.cls = "FlagListSetting" THEN base ELSE SelectSeq(base, LAMBDA v : ~HasFlag(v))
 RtVerdict(s, raw) ==
     LET st == Store(s, raw) IN
